@@ -319,7 +319,11 @@ func GenTypes(t *rapid.T, o *Opts) *Spec {
 
 	// sub packages first (root refers to them)
 	if o.SubPkgs {
-		nSub := rapid.IntRange(0, 2).Draw(t, "nSub")
+		maxSub := 2
+		if o.ManySubPkgs {
+			maxSub = 4
+		}
+		nSub := rapid.IntRange(0, maxSub).Draw(t, "nSub")
 		for i := 0; i < nSub; i++ {
 			sn := subNames[rapid.IntRange(0, len(subNames)-1).Draw(t, "subName")]
 			if o.Spelling && rapid.IntRange(0, 3).Draw(t, "shortPkg") == 0 {
